@@ -623,6 +623,14 @@ def ray_builders(model, inst, X):
         lambda I: (lambda f: pair(I, f, I.getattr_value(f, 'proximal'),
                                   sigmas=[sig, 2 * sig]))(sepsum(I)),
         [3 * sig, -sig / 2, S('e0'), -S('e1')], 'ray')
+    # left scaling by an integer and by a fraction, one step per part
+    for c, ct in ((Rat.const(2), '2'), (Rat.const(3) / 2, '3/2')):
+        B['expr:%s * SeparableSum(L1Norm, L2NormSquared)[steps sigma, 2 sigma]'
+          % ct] = (
+            lambda I, c=c: (lambda f: pair(
+                I, f, I.getattr_value(f, 'proximal'),
+                sigmas=[sig, 2 * sig]))(I.binop(ast.Mult, c, sepsum(I))),
+            [3 * sig * c, -sig / 2, S('e0'), -S('e1')], 'ray')
     for e, et in ((1, '1'), (2, '2'), (Opaque('np.inf'), 'inf')):
         B['IndicatorNuclearNormUnitBall[singular exp %s]' % et] = (
             lambda I, e=e: inst(I, 'IndicatorNuclearNormUnitBall', mat(),
